@@ -11,6 +11,7 @@
 #include <cstring>
 #include <map>
 #include <sys/mman.h>
+#include <signal.h>
 #include <sys/wait.h>
 #include <unistd.h>
 
@@ -105,9 +106,13 @@ namespace vh
       pid_t pid = fork();
       if (pid == 0)
       {
+        // watchdog: a case that does not finish (a loop of the library that no longer makes progress) ends the child
+        // with `abort:hang`; the parent then goes on with the next case
+        signal(SIGALRM, [](int) { const char m[] = "abort:hang\n"; ssize_t r = write(1, m, sizeof(m) - 1); (void)r; _exit(3); });
         for (size_t i = next; i < cases.size(); ++i)
         {
           *progress = i;
+          alarm(90);
           std::cout << "case " << cases[i].id << std::endl;
           try { run_one(cases[i]); }
           catch (std::exception const& e)
